@@ -1,12 +1,182 @@
-use crate::util::Report;
-use crate::Ctx;
-use serde_json::Value;
+//! C19 — the configuration constructor enforces the RFC's parameter limits.
 
-pub fn run(_ctx: &Ctx, _rep: &mut Report) {
-    eprintln!("not implemented yet");
-    std::process::exit(2);
+use crate::util::{catch, fnv_u64s, run_sharded, Report, Stats};
+use crate::Ctx;
+use proptest::prelude::*;
+use raptorq::ObjectTransmissionInformation;
+use serde_json::{json, Value};
+
+const F_MAX: u64 = 942574504275;
+const K_MAX: u128 = 56403;
+
+#[derive(Debug, Clone, PartialEq)]
+pub struct Case {
+    f: u64,
+    t: u16,
+    z: u8,
+    n: u16,
+    al: u8,
 }
 
-pub fn replay(_sub: &str, _case: &Value) -> Result<(), String> {
-    Err("not implemented".into())
+/// Reference predicate, in u128 arithmetic, of the limits `new` documents.
+fn accept(c: &Case) -> bool {
+    let (f, t, z, al) = (c.f as u128, c.t as u128, c.z as u128, c.al as u128);
+    let kt = (f + t - 1) / t;
+    let per_block = (kt + z - 1) / z;
+    c.f <= F_MAX && t % al == 0 && per_block <= K_MAX
+}
+
+fn near_limit(c: &Case) -> bool {
+    let (f, t, z) = (c.f as i128, c.t as i128, c.z as i128);
+    let lim = 56403 * z * t;
+    (f - F_MAX as i128).abs() <= 2
+        || (f - lim).abs() <= 2 * t
+        || (c.f as u128 + c.t as u128 - 1) / c.t as u128 >= 1 << 32
+}
+
+fn strategy() -> impl Strategy<Value = Case> {
+    let t = prop_oneof![3 => 1u16..=300, 2 => 1u16..=65535, 1 => Just(1u16), 1 => Just(65535u16), 1 => Just(256u16), 1 => Just(255u16)];
+    let z = prop_oneof![3 => 1u8..=255, 1 => Just(1u8), 1 => Just(255u8), 1 => Just(2u8)];
+    let al = prop_oneof![2 => Just(1u8), 1 => Just(2u8), 1 => Just(4u8), 1 => Just(8u8), 2 => 1u8..=255];
+    (t, z, al, any::<u16>(), 0u8..12, any::<u64>(), -6i64..=6).prop_map(
+        |(t, z, al, n, mode, r, d)| {
+            // in 3 of 4 cases make Al divide T so that the symbol-count limits decide
+            let al = if r % 4 != 0 && t % al as u16 != 0 { 1 } else { al };
+            let lim = 56403u64 * z as u64 * t as u64;
+            let shift = |base: u64, d: i64| -> u64 {
+                if d < 0 {
+                    base.saturating_sub((-d) as u64)
+                } else {
+                    base.saturating_add(d as u64)
+                }
+            };
+            let f = match mode {
+                // adjacent to the per-block symbol limit (in units of bytes and of symbols)
+                0 => shift(lim, d),
+                1 => shift(lim, d * t as i64),
+                // adjacent to the transfer-length limit
+                2 => shift(F_MAX, d),
+                // ceil(F/T) adjacent to a multiple of 2^32 (narrowing hazards)
+                3 | 4 => {
+                    let m = 1 + r % 256;
+                    shift((m << 32).saturating_mul(t as u64), d * (t as i64).max(1))
+                }
+                5 => shift((1 + r % 200) << 32, d),
+                // log-uniform over 0..2^40
+                6 | 7 => {
+                    let bits = r % 41;
+                    if bits == 0 {
+                        0
+                    } else {
+                        (1u64 << (bits - 1)) | ((r >> 8) & ((1u64 << (bits - 1)) - 1))
+                    }
+                }
+                8 => r % (lim + 1),
+                9 => lim + 1 + r % (lim + 1),
+                10 => (r >> 24) % (1u64 << 40),
+                _ => shift(lim.min(F_MAX), d),
+            };
+            Case { f, t, z, n, al }
+        },
+    )
+}
+
+fn check(c: &Case, st: &mut Stats) -> Result<(), String> {
+    let want = accept(c);
+    let got = catch(|| ObjectTransmissionInformation::new(c.f, c.t, c.z, c.n, c.al));
+    st.class(if want { "in limits" } else { "outside limits" });
+    st.class_if(c.t % c.al as u16 != 0, "T not multiple of Al");
+    st.class_if(c.f > F_MAX, "F above max transfer length");
+    let wide = (c.f as u128 + c.t as u128 - 1) / c.t as u128 >= 1 << 32;
+    st.class_if(wide, "ceil(F/T)>=2^32");
+    if near_limit(c) {
+        st.class("near a limit");
+        st.nt(fnv_u64s(&[c.f, c.t as u64, c.z as u64, c.al as u64]));
+    }
+    st.sample(|| json!({"F": c.f, "T": c.t, "Z": c.z, "N": c.n, "Al": c.al, "expected_accept": want}));
+    match (want, got) {
+        (true, Ok(o)) => {
+            if o.transfer_length() != c.f
+                || o.symbol_size() != c.t
+                || o.source_blocks() != c.z
+                || o.sub_blocks() != c.n
+                || o.symbol_alignment() != c.al
+            {
+                return Err(format!("accepted configuration does not report the values it was given: {c:?} -> {o:?}"));
+            }
+            Ok(())
+        }
+        (false, Err(_)) => Ok(()),
+        (true, Err(p)) => Err(format!("refused a parameter set inside the documented limits: {c:?} ({p})")),
+        (false, Ok(_)) => Err(format!(
+            "accepted a parameter set outside the documented limits: {c:?} (ceil(ceil(F/T)/Z) = {})",
+            ((c.f as u128 + c.t as u128 - 1) / c.t as u128 + c.z as u128 - 1) / c.z as u128
+        )),
+    }
+}
+
+fn to_json(c: &Case) -> Value {
+    json!({"f": c.f, "t": c.t, "z": c.z, "n": c.n, "al": c.al})
+}
+
+fn from_json(v: &Value) -> Case {
+    Case {
+        f: v["f"].as_u64().unwrap(),
+        t: v["t"].as_u64().unwrap() as u16,
+        z: v["z"].as_u64().unwrap() as u8,
+        n: v["n"].as_u64().unwrap() as u16,
+        al: v["al"].as_u64().unwrap() as u8,
+    }
+}
+
+fn signature(c: &Case, msg: &str) -> String {
+    let kind = if msg.starts_with("accepted a parameter") {
+        "accepted-outside"
+    } else if msg.starts_with("refused") {
+        "refused-inside"
+    } else {
+        "other"
+    };
+    let wide = (c.f as u128 + c.t as u128 - 1) / c.t as u128 >= 1 << 32;
+    format!("new:{kind}:{}", if wide { "ceil(F/T)>=2^32" } else { "narrow" })
+}
+
+/// Regression seeds: inputs that once failed (kept in the deterministic part of the generator).
+fn regression_cases() -> Vec<Case> {
+    vec![
+        Case { f: (1 << 32) + 5, t: 1, z: 1, n: 1, al: 1 },
+        Case { f: 1 << 32, t: 1, z: 1, n: 1, al: 1 },
+        Case { f: (1 << 33) + 56403, t: 2, z: 1, n: 1, al: 1 },
+        Case { f: F_MAX, t: 65535, z: 255, n: 1, al: 1 },
+        Case { f: F_MAX + 1, t: 65535, z: 255, n: 1, al: 1 },
+        Case { f: 56403, t: 1, z: 1, n: 0, al: 1 },
+        Case { f: 56404, t: 1, z: 1, n: 0, al: 1 },
+        Case { f: 0, t: 1, z: 1, n: 1, al: 1 },
+        Case { f: 10, t: 10, z: 1, n: 1, al: 3 },
+    ]
+}
+
+pub fn run(ctx: &Ctx, rep: &mut Report) {
+    rep.rule = "generated (F, T, Z, N, Al) with T in 1..=65535, Z, Al in 1..=255, F built adjacent to each limit (56403*Z*T +- d, 942574504275 +- d, ceil(F/T) around multiples of 2^32) or log-uniform below 2^40; oracle = the documented limits evaluated in u128 (accept <=> F <= 942574504275 and Al | T and ceil(ceil(F/T)/Z) <= 56403); new() must return (and echo the values) iff accept, else panic. Non-trivial = within +-2 symbols of a limit or ceil(F/T) >= 2^32; distinct by (F,T,Z,Al).".into();
+    rep.assumptions.push("domain: positive T, Z, Al as the property states (zero values are outside it)".into());
+    let mut st = Stats::new();
+    let started = std::time::Instant::now();
+    let mut failures = vec![];
+    for c in regression_cases() {
+        st.eval();
+        if let Err(m) = check(&c, &mut st) {
+            failures.push(crate::util::simple_failure("new", m.clone(), signature(&c, &m), to_json(&c)));
+        }
+    }
+    failures.truncate(1);
+    rep.absorb("regression", crate::util::SubOutcome { stats: st, failures, wall_s: started.elapsed().as_secs_f64() });
+    let n = ctx.tier.pick(2_000_000u64, 200_000_000);
+    rep.absorb(
+        "new",
+        run_sharded("C19", "new", ctx.seed, n, 64, strategy, check, to_json, signature),
+    );
+}
+
+pub fn replay(_sub: &str, case: &Value) -> Result<(), String> {
+    check(&from_json(case), &mut Stats::new())
 }
